@@ -40,4 +40,8 @@ CLAIMED = {
    text="Metamorphic pairs (base project vs. base project plus one lowest-priority task nothing depends on, inserted at any position/nesting, on any resource or team, pinned / dependent / anchored ALAP) are both scheduled by the real code; dates, flags and per-task bookings of all base tasks must be identical. Pairs whose effective horizon differs are discarded and counted.",
    note="The relation needs no model of the scheduler; trusts the renderer and that the only legitimate channel is the horizon extension (discard rule). ALAP intruders and intruders in backward projects carry no own or inherited dependencies.",
    technique="metamorphic property-based testing (Hypothesis): add-a-lowest-priority-task relation"),
+ "C14": dict(
+   text="Metamorphic pairs: a generated UTC project and the same project with every date moved by k weeks (k from 1 week to 6 years), project starts concentrated around year ends, leap days and 53-week ISO years; both are scheduled by the real code and every reported date of the shifted run minus k weeks must equal the original run.",
+   note="No model of the scheduler is needed; trusts the date-shifting of the model (all dates are kept in the model, none in free text). Resource time zones and month/year durations are outside the relation.",
+   technique="metamorphic property-based testing (Hypothesis): week-shift equivariance"),
 }
